@@ -134,6 +134,20 @@ def run(ctx):
         first_sort = min(x["sp"][3] for x in sorts)
         early = [H.loc(x) for x in idx if x["sp"][3] < first_sort]
         ctx.inst("C15.R10", "%s#sorted-before-indexed" % name, not early, "elements of the numbers read before the sort: %s" % (early or "none"), H.loc(a["body"]))
+    # percentile(l, p) is an element of l: what the arm returns is one indexed element, never arithmetic on several
+    pa = arms.get("Percentile")
+    if pa is not None:
+        mixes = [H.loc(x) for x in H.walk(pa["body"]) if H.kind(x) == "Binary" and x["op"] in ("Add", "Sub", "Mul", "Div")
+                 and sum(1 for y in H.walk(x) if H.kind(y) == "Index" and "f64" in (H.strip(y["e"]).get("ty") or "")) >= 2]
+        ctx.inst("C15.R10", "Percentile#an-element", not mixes, "arithmetic that combines two elements of the numbers: %s (the result is then not an element of the list)" % (mixes or "none"), H.loc(pa["body"]))
+    # `[...a, ...b, x]` lists every element once, in order: the vector under construction is only appended to
+    hev10 = core.hir_fn("blots_core::expressions::evaluate_ast")
+    mev10 = H.main_match(hev10["body"], "ast::Expr")
+    la10 = next((a_ for a_ in (mev10["arms"] if mev10 else []) if any(H.last(v_) == "List" for v_ in H.pat_variants(a_["pat"]))), None)
+    if la10 is not None:
+        grown = {H.path_local(x["recv"]) for x in H.walk(la10["body"]) if H.kind(x) == "MethodCall" and x["name"] in ("push", "extend", "append") and "Vec<blots_core::values::Value>" in (x.get("recv_ty") or "")} - {None}
+        over = [H.loc(x) for lp_ in H.walk(la10["body"]) if H.kind(lp_) in ("For", "While", "Loop") for x in H.walk(lp_.get("body") or {}) if H.kind(x) == "Assign" and H.path_local(H.strip(x["l"])) in grown]
+        ctx.inst("C15.R10", "List#append-only", (not over) if grown else None, "assignments that replace the element vector inside a loop: %s" % (over or "none"), H.loc(la10["body"]))
     hfc10 = core.hir_fn("blots_core::functions::FunctionDef::call")
     bcalls = [x for x in H.walk(hfc10["body"]) if H.kind(x) == "MethodCall" and x.get("def") == BCALL]
     if len(bcalls) != 1:
